@@ -6,4 +6,8 @@ BqBanks == {<<"A1", "B2">>}
 BqPrices == {<<"B1", 1, 100000000>>, <<"B1", 1, 500>>}
 BqAfter == {<<"A2", "B2", 1000003>>, <<"A1", "B1", 1000003>>}
 BqLiq == {<<"A2", "A1", "B1", "B2">>}
+\* the "kill" instance (setups/bkrkill.json): A2 is the only lender of B2 and lent exactly what A1 borrowed, so an uncovered
+\* write-off consumes every deposit and shuts the bank; afterwards the admin asks for every operational state
+BqNone == {}
+BqPricesK == {<<"B1", 1, 100000000>>}
 =============================================================================
